@@ -13,12 +13,10 @@ pub struct Ver {
     pub nb_case: bool,
 }
 
+/// ASCII lower-casing without a branch (so that symbolic case bits do not fork the exploration)
 fn lower(b: u8) -> u8 {
-    if b >= b'A' && b <= b'Z' {
-        b + 32
-    } else {
-        b
-    }
+    let up = (b >= b'A') & (b <= b'Z');
+    b + 32 * (up as u8)
 }
 
 /// case-insensitive "does `s[i..]` start with the lower-case word `w`"
